@@ -182,17 +182,26 @@ CLAIMED = {
             "supplied factors or C18-certified parameter primes above; 'rejects every composite' is corpus-only; bn_is_prime_basic is a "
             "trial-division filter (composites may pass by design); even moduli are refused by the Montgomery-based bn_mxp.",
             "DESIGN.md §5 C09"),
-    "C14": ("Lean 4 proofs (streaming SHA-256 = FIPS 180-4 for every chunking; md_hmac/nist_kdf/md_xmd = RFC 2104 / MGF1-KDF2 / RFC 9380; "
-            "PKCS#7 + CBC round trip and rejection logic) + correspondence against standard-derived Lean specs",
-            "Proved in Lean for the model: the streaming SHA-256 implementation equals the one-shot FIPS 180-4 definition for every message "
-            "length and every chunking; HMAC for all key lengths, the counter KDF/MGF for all output lengths, expand_message_xmd incl. its abort "
-            "conditions equal their standards (hash abstract); PKCS#7 unpad∘pad = id, padEncrypt/padDecrypt = CBC∘PKCS#7 of the spec for every "
-            "length incl. 0, decryption returns data only for well-formed padding, dec∘enc = id given the block-cipher inverse. Tie: SHA-224/256/"
-            "384/512, BLAKE2s, HMAC, KDF, MGF, XMD and AES-CBC outputs of the library are compared with executable Lean definitions written "
-            "from the standards on all lengths around every padding boundary, all key sizes, corrupted ciphertexts and short buffers.",
-            "Trusted: Lean kernel; hand-written models tied by correspondence; compression functions, the table-driven AES rounds and BLAKE2s "
-            "are compared with the spec but not proved (the block-cipher inverse is a hypothesis of the CBC theorem); SHA-224/384/512 streaming "
-            "is compared one-shot only.",
+    "C14": ("Lean 4 proofs (streaming SHA-224/256/384/512 and BLAKE2s = FIPS 180-4 / RFC 7693 for every chunking; md_hmac/nist_kdf/md_xmd = "
+            "RFC 2104 / MGF1-KDF2 / RFC 9380; FIPS 197 InvCipher o Cipher = id; table-driven rijndaelKeySetupEnc/Dec + rijndaelEncrypt/Decrypt = "
+            "FIPS 197 Cipher / InvCipher; PKCS#7 + CBC round trip and rejection, concrete, over the table code) + tables/constants extracted from the "
+            "C text and kernel-checked + correspondence against standard-derived Lean specs",
+            "Proved in Lean for the models (which mirror the C control flow and are executed on every line): the Reset/Input/Result code of "
+            "sha224-256.c and sha384-512.c (one parametric model) and blake2s-ref.c init/init_key/update/final equal the one-shot FIPS 180-4 / "
+            "RFC 7693 definitions for every message length and every chunking (SHA-384/512 below 2^96 bits: the compiled counter test fires "
+            "there, finding C14-ext-1); HMAC for all key lengths, the counter KDF/MGF for all output lengths, expand_message_xmd over all four "
+            "SHA streams incl. its abort conditions equal their standards; FIPS 197 InvCipher inverts Cipher for every key size, key and block "
+            "(S-box bijection over 256 entries, ShiftRows, MixColumns via GF(2^8) linearity, any round-key list); the word-level mirror of "
+            "rijndaelKeySetupEnc + rijndaelEncrypt over the tables extracted from the C text equals FIPS 197 KeyExpansion + Cipher for every "
+            "key and block, rijndaelKeySetupDec + rijndaelDecrypt equal the par. 5.3.5 key schedule + equivalent inverse cipher (= InvCipher) "
+            "for every key and block; PKCS#7 unpad o pad = id, padEncrypt/padDecrypt = CBC o PKCS#7 of the spec for every length incl. 0, decryption "
+            "returns data only for well-formed padding, dec o enc = id with no hypothesis on the block cipher. Kernel-checked on every run "
+            "against the C text: all entries of Te0..Te4, Td0..Td4, rcon; K/H0/IV/sigma of the hash files. Tie: outputs of the library's "
+            "one-shot AND incremental APIs (arbitrary chunk splits, Result/final in between, preset counters) are compared with model and "
+            "spec on all lengths around every padding boundary, all key sizes, corrupted ciphertexts and short buffers.",
+            "Trusted: Lean kernel; hand-written models tied by correspondence; the round functions (SHA*ProcessMessageBlock, blake2s_compress) "
+            "are the specification's functions compared per line (constants tied by proof); translators tools/translate_aes.py, "
+            "tools/translate_md.py parse C initialisers.",
             "DESIGN.md §5 C14"),
     "C15": ("Lean 4 refinement proof (byte-level DRBG model ⊑ SP 800-90A spec, induction over histories) + correspondence run",
             "Proved in Lean for the model: for every hash with 32-byte output, every non-empty seed and every history of generate/reseed "
